@@ -150,6 +150,13 @@ func runC02(p *Plan) {
 						}
 						if (t.Kind() == reflect.Struct || t.Kind() == reflect.Map || t.Kind() == reflect.Slice) && !isByteSlice(t) {
 							src = SrcSpec{Kind: "foreign", Form: "ownnilp", Own: t}
+							ev := el
+							for ev.Kind() == reflect.Ptr && !ev.IsNil() {
+								ev = ev.Elem()
+							}
+							if ev.Kind() != reflect.Ptr && tr.Bool() {
+								src = SrcSpec{Kind: "foreign", Form: "ownp", Own: t, OwnV: ev}
+							}
 						}
 					}
 					f := pickForm(tr)
